@@ -1,7 +1,8 @@
 /-
 C10 — Reassembler buffers at most maxInFlight events and evicts only for cause.
 -/
-import LA.Proofs.Reasm
+import LA.Proofs.ReasmLife
+import LA.Gen.ReasmFacts
 
 namespace LA.Reasm
 
@@ -157,6 +158,23 @@ theorem C10_complete_if (s : St) (hs : Inv s) (m : Msg) (t : Int) :
         · subst h; exact absurd (by simpa using hk) hkk
         · obtain ⟨p, hp, h1, h2⟩ := ih h
           exact ⟨p, List.mem_cons_of_mem _ hp, h1, h2⟩
+
+/-- Completion by record type, for the whole record-type domain. For every one of the 65536 record
+types, the life cycle of a lone record in the model (delivered by its own push because the type
+terminates an event; or buffered and delivered, alone, by its EOE; or not buffered at all, the EOE
+type itself) is the one the running library shows through its public API: `Gen.ReasmFacts.lifeCycle`
+is regenerated on every run by pushing each type into a fresh Reassembler. The table is checked
+run by run (`runsOk`), not by enumeration. -/
+theorem C10_lifecycle_table (t : Nat) (ht : t < 65536) :
+    lookupLife LA.Gen.ReasmFacts.lifeCycle t = some (modelLife t) := by
+  rw [modelLife_eq]
+  exact runsOk_sound _ 0 (by decide +kernel) t (Nat.zero_le _) ht
+
+/-- … and in closed form: terminating types are PROCTITLE, everything up to 1299 and everything
+from 2100; only EOE (1320) is never buffered. -/
+theorem C10_lifecycle_closed_form (t : Nat) :
+    modelLife t = if t = 1320 then 2 else if t = 1327 ∨ t ≤ 1299 ∨ t ≥ 2100 then 0 else 1 := by
+  rw [modelLife_eq, specLife_prop]
 
 /-- non-vacuity: a state where the bound bites and the head stays incomplete. -/
 example : (run (init 2 3600) [.push ⟨1, 5, 1300⟩ 0 0, .push ⟨2, 6, 1300⟩ 0 0, .push ⟨3, 7, 1300⟩ 0 0]).1.buf.length = 2 := by
